@@ -19,7 +19,8 @@ DOCS = [None, ["Plain text only."], ["Takes :keyword foo: a thing."], ["Doc.", "
         ["The :keywords: follow, KW!x too, and :param **kwargs:x"],
         ["Doc.", ":keyword OPT: a field on a line of its own"]]     # the trigger directly followed by a word character
 PARAMS = [[], ["_pfx_name"], ['"q  p\tt"', "${ref}", "[[br x]]"], ["x_arg", "_x", "_both_"],
-          ['"**kwargs"', "target"], ["first", '"**kwargs"']]     # a parameter that reads '**kwargs' once its quotes are stripped   # two spaces and a tab inside quotes
+          ['"**kwargs"', "target"], ["first", '"**kwargs"'],
+          ["result", "a", "b", "result"], ["_", "_", "value", '"x y"', '"x y"']]     # the same parameter text written more than once     # a parameter that reads '**kwargs' once its quotes are stripped   # two spaces and a tab inside quotes
 
 
 def enabled(events, maxnest):
